@@ -49,6 +49,8 @@ def make_skeleton(rng, idx: int, probes: bool = False) -> dict:
             name = "%s%d_%d" % (lang, idx, i)
             used = ctrl.kinds_used(block)
             f = {"name": name, "style": style, "block": block}
+            if rng.random() < 0.2 and style == "func":
+                f["async"] = True
             if used & {"asyncfor", "asyncwith", "asyncblock"}:
                 f["async"] = True
                 if lang == "rs":
@@ -62,7 +64,7 @@ def make_skeleton(rng, idx: int, probes: bool = False) -> dict:
     for f in shared + [f for fs in per.values() for f in fs]:
         f["block"] = ctrl.no_lone_if_in_else(f["block"])
     return {"idx": idx, "shared": shared, "per": per, "indent": rng.choice(["    ", "  ", "\t"]),
-            "gap": rng.randint(0, 2), "carrier": rng.choice(["cli", "cli", "yaml", "json"])}
+            "gap": rng.randint(0, 2), "carrier": rng.choice(["cli", "cli", "yaml", "json", "pyproject", "config-opt", "lang-override"])}
 
 
 def render_project(sk: dict):
@@ -94,6 +96,16 @@ def exec_case(sk: dict) -> dict:
             argv = ["nesting", "--format", "json", "."]
         elif sk["carrier"] == "json":
             extra[".thailint.json"] = json.dumps({"nesting": {"enabled": True, "max_nesting_depth": L}})
+            argv = ["nesting", "--format", "json", "."]
+        elif sk["carrier"] == "pyproject":
+            extra["pyproject.toml"] = "[project]\nname = \"p\"\nversion = \"0\"\n\n[tool.thailint.nesting]\nenabled = true\nmax_nesting_depth = %d\n" % L
+            argv = ["nesting", "--format", "json", "."]
+        elif sk["carrier"] == "config-opt":
+            extra["limits.yaml"] = "nesting:\n  max_nesting_depth: %d\n" % L
+            argv = ["nesting", "--config", "limits.yaml", "--format", "json", "."]
+        elif sk["carrier"] == "lang-override":
+            # every language gets its limit from its own override; the top-level value is a decoy
+            extra[".thailint.yaml"] = "nesting:\n  max_nesting_depth: 99\n" + "".join("  %s:\n    max_nesting_depth: %d\n" % (lang, L) for lang in ("python", "typescript", "javascript", "rust"))
             argv = ["nesting", "--format", "json", "."]
         else:
             argv = ["nesting", "--max-depth", str(L), "--format", "json", "."]
